@@ -446,14 +446,14 @@ class extract_visitor(NodeVisitor):
         flow = self.flow
         known = set(map(id, flow._names))
         self.visit(node.test)
-        if self.flow is flow:
-            # the test is evaluated first although the body precedes it in
-            # the text: what it binds (walrus) is visible in the whole expression
-            bound = [n for n in flow._names if id(n) not in known]
-            if bound:
-                for n in bound:
-                    n.location = np(node)
-                flow._names.sort()
+        # the test is evaluated first although the body precedes it in
+        # the text: what it binds (walrus) is visible in the whole expression
+        flow = self.flow
+        bound = [n for n in flow._names if id(n) not in known]
+        if bound:
+            for n in bound:
+                n.location = np(node)
+            flow._names.sort()
         if (binds_names(node.body) or binds_names(node.orelse)
                 or getattr(node.test, 'all_flow', None) is not None):
             # only one of the two is evaluated
